@@ -248,13 +248,13 @@ MARKUP = {
 
 
 # `@typstyle off` directives: {D} is the directive comment (line or block form), {P} a badly formatted payload expression
-OFF_PAYLOADS = {'call': 'f( 1,2 )', 'array': '( 1,2 ,3)', 'binary': 'a  +  b', 'block': '{ x;y }', 'dict': '(a:1,b : 2)', 'closure': '(x)=>x+1', 'content': '[ a  *b* ]', 'chain': 'a . b( 1 ).c'}
+OFF_PAYLOADS = {'product': 'a  *  b', 'compare': 'y   >=   2', 'call': 'f( 1,2 )', 'array': '( 1,2 ,3)', 'binary': 'a  +  b', 'block': '{ x;y }', 'dict': '(a:1,b : 2)', 'closure': '(x)=>x+1', 'content': '[ a  *b* ]', 'chain': 'a . b( 1 ).c'}
 OFF_MATH_PAYLOADS = {'sum': 'a  +   b', 'call': 'sin( x )  y', 'attach': 'x_1  ^2   z'}
 OFF_POSITIONS = {
     'markup': '{D}#{P}\n#{P}\n', 'markup_inline': 'text {D}#{P} text #{P}\n', 'codeblock': '#{\n  {D}{P}\n  {P}\n}\n', 'arg': '#g(\n  {D}{P},\n  {P},\n)\n',
     'arg_second': '#g(1, {D}{P}, {P})\n', 'array_item': '#(\n  {D}{P},\n  {P},\n)\n', 'let_rhs': '#let v = {D}{P}\n', 'named_value': '#g(k: {D}{P}, j: {P})\n',
     'dict_value': '#(k: {D}{P}, j: {P})\n', 'closure_body': '#let g = x => {D}{P}\n', 'for_body': '#for x in y {D}{P}\n', 'if_cond': '#if {D}{P} { 1 }\n',
-    'binary_rhs': '#let v = 1 + {D}{P}\n', 'paren': '#({D}{P})\n', 'content_block': '#[\n  {D}#{P}\n  #{P}\n]\n', 'list_item_tail': '- a {D}#{P}\n- #{P}\n',
+    'binary_rhs': '#let v = 1 + {D}{P}\n', 'binary_rhs_and': '#let v = x == 1 and {D}{P}\n', 'binary_lhs_inner': '#let v = k + {D}{P} + m\n', 'paren': '#({D}{P})\n', 'content_block': '#[\n  {D}#{P}\n  #{P}\n]\n', 'list_item_tail': '- a {D}#{P}\n- #{P}\n',
     'return': '#let g() = { return {D}{P} }\n', 'show_rhs': '#show heading: {D}{P}\n', 'set_if': '#set text(red) if {D}{P}\n', 'destruct_item': '#let ({D}a , b) = {P}\n',
     'math_hash': '$ x + {D}#{P} $\n', 'spread': '#g(..{D}{P})\n', 'unary': '#let v = -{D}{P}\n', 'field_target': '#let v = {D}{P}.len()\n', 'call_content_arg': '#g(1){D}[ a  b ]\n',
     'params_default': '#let g(a, b: {D}{P}) = a\n', 'context': '#context {D}{P}\n', 'include': '#include {D}"a" + {P}\n',
